@@ -75,8 +75,46 @@ def class_identified_by_loader(chk: Check, rule: str = 'PROV-loader-precedence')
     chk.ob(rule, sv, ok, 'the class is identified by the loader in effect (custom if given, else default)', kind='class-identified-by-loader')
 
 
+def loader_precedence(chk: Check, rule: str = 'PROV-loader-precedence') -> None:
+    """_ensure_object_loader: a loader already in the load context wins; otherwise the saved state is consulted; the global default
+    comes last.  Shared with C17 (the launcher's configured loader travels in the load context)."""
+    from ..rules import Resolver as _R
+    prog = chk.prog
+    # 2. loader precedence
+    eol = prog.func('persistence._ensure_object_loader')
+    cfg = cfg_of(eol)
+    ff = chk.ctx.facts.analyse(eol)
+    rets = [n for n in cfg.nodes if n.kind == 'return']
+    first = [r for r in rets if norm(r.ast.value) == eol.params[0]]
+    ok = bool(first) and all(('notnone', f'{eol.params[0]}.loader') in ff.at(r) for r in first)
+    chk.ob(rule, eol, ok, '1) a loader already in the context wins (returned unchanged)', kind='context-first')
+    gets = [n for n in cfg.nodes if any(isinstance(c, ast.Call) and last_name(c) == 'get_custom_meta' for c in (walk_shallow(n.expr()) if n.expr() is not None else []))]
+    ok = bool(gets) and all(('none', f'{eol.params[0]}.loader') in ff.at(g) for g in gets)
+    chk.ob(rule, eol, ok, '2) otherwise the loader named in the saved state is looked up', kind='saved-second')
+    ok = bool(gets) and cfg.must_pass(cfg.entry, [cfg.exit], lambda m: m in gets or m in first)
+    chk.ob(rule, eol, ok, 'every way of returning a context either returns the given context that already carries a loader, or has consulted the saved state '
+           'first (a shortcut -- no context given, say -- that goes straight to the default ignores the loader the state was saved with)', kind='saved-state-always-consulted')
+    key_ok = any(isinstance(c, ast.Call) and last_name(c) == 'get_custom_meta' and len(c.args) == 2 and norm(c.args[0]) == eol.params[1] and prog.fold(eol.module, c.args[1]) == 'object_loader'
+                 for g in gets for c in walk_shallow(g.expr()))
+    chk.ob(rule, eol, key_ok, 'the lookup uses the object-loader meta key of the given saved state', kind='saved-key')
+    # the fallback to the default is taken only when the saved state names no loader
+    tries = [t for t in ast.walk(eol.node) if isinstance(t, ast.Try)]
+    ok = False
+    for t in tries:
+        if any(isinstance(c, ast.Call) and last_name(c) == 'get_custom_meta' for s in t.body for c in ast.walk(s)):
+            h_ok = any(h.type is not None and 'ValueError' in norm(h.type) and any(isinstance(s, ast.Assign) and norm(s.targets[0]) == 'loader' and 'default' in norm(s.value) for s in h.body) for h in t.handlers)
+            e_ok = any(isinstance(s, ast.Assign) and norm(s.targets[0]) == 'loader' and ('loader_identifier' in _R(eol).text(s.value) or 'get_custom_meta' in _R(eol).text(s.value)) for s in t.orelse)
+            ok = h_ok and e_ok
+    chk.ob(rule, eol, ok, '3) the global default is used only when the saved state names none', kind='default-last')
+    ce = [c for c in calls_in_func(eol, 'copyextend')]
+    chk.ob(rule, eol, len(ce) == 1 and any(k.arg == 'loader' and norm(k.value) == 'loader' for k in ce[0].keywords), 'the chosen loader is put into the returned context', kind='into-context')
+
+
 def run(chk: Check) -> None:
     from ..rules import Resolver as _R
+    # "copied at save time": deepcopy must really copy (shared with C07 / C08 / C14)
+    from .common import copy_protocol_is_deep
+    copy_protocol_is_deep(chk, 'TAB-member-kinds')
     prog = chk.prog
     pe = prog.module('persistence')
 
@@ -232,34 +270,8 @@ def run(chk: Check) -> None:
         c = [x for x in calls_in_func(f, fn)]
         chk.ob('TAB-member-kinds', f, len(c) == 1 and norm(c[0].args[0]) == 'self._auto_persist', f'{f.name} handles exactly the declared members', kind='declared-members')
 
-    # 2. loader precedence
+    loader_precedence(chk)
     eol = prog.func('persistence._ensure_object_loader')
-    cfg = cfg_of(eol)
-    ff = chk.ctx.facts.analyse(eol)
-    rets = [n for n in cfg.nodes if n.kind == 'return']
-    first = [r for r in rets if norm(r.ast.value) == eol.params[0]]
-    ok = bool(first) and all(('notnone', f'{eol.params[0]}.loader') in ff.at(r) for r in first)
-    chk.ob('PROV-loader-precedence', eol, ok, '1) a loader already in the context wins (returned unchanged)', kind='context-first')
-    gets = [n for n in cfg.nodes if any(isinstance(c, ast.Call) and last_name(c) == 'get_custom_meta' for c in (walk_shallow(n.expr()) if n.expr() is not None else []))]
-    ok = bool(gets) and all(('none', f'{eol.params[0]}.loader') in ff.at(g) for g in gets)
-    chk.ob('PROV-loader-precedence', eol, ok, '2) otherwise the loader named in the saved state is looked up', kind='saved-second')
-    ok = bool(gets) and cfg.must_pass(cfg.entry, [cfg.exit], lambda m: m in gets or m in first)
-    chk.ob('PROV-loader-precedence', eol, ok, 'every way of returning a context either returns the given context that already carries a loader, or has consulted the saved state '
-           'first (a shortcut -- no context given, say -- that goes straight to the default ignores the loader the state was saved with)', kind='saved-state-always-consulted')
-    key_ok = any(isinstance(c, ast.Call) and last_name(c) == 'get_custom_meta' and len(c.args) == 2 and norm(c.args[0]) == eol.params[1] and prog.fold(eol.module, c.args[1]) == 'object_loader'
-                 for g in gets for c in walk_shallow(g.expr()))
-    chk.ob('PROV-loader-precedence', eol, key_ok, 'the lookup uses the object-loader meta key of the given saved state', kind='saved-key')
-    # the fallback to the default is taken only when the saved state names no loader
-    tries = [t for t in ast.walk(eol.node) if isinstance(t, ast.Try)]
-    ok = False
-    for t in tries:
-        if any(isinstance(c, ast.Call) and last_name(c) == 'get_custom_meta' for s in t.body for c in ast.walk(s)):
-            h_ok = any(h.type is not None and 'ValueError' in norm(h.type) and any(isinstance(s, ast.Assign) and norm(s.targets[0]) == 'loader' and 'default' in norm(s.value) for s in h.body) for h in t.handlers)
-            e_ok = any(isinstance(s, ast.Assign) and norm(s.targets[0]) == 'loader' and ('loader_identifier' in _R(eol).text(s.value) or 'get_custom_meta' in _R(eol).text(s.value)) for s in t.orelse)
-            ok = h_ok and e_ok
-    chk.ob('PROV-loader-precedence', eol, ok, '3) the global default is used only when the saved state names none', kind='default-last')
-    ce = [c for c in calls_in_func(eol, 'copyextend')]
-    chk.ob('PROV-loader-precedence', eol, len(ce) == 1 and any(k.arg == 'loader' and norm(k.value) == 'loader' for k in ce[0].keywords), 'the chosen loader is put into the returned context', kind='into-context')
     # kind agreement: save() records the identifier of the loader's CLASS, so the loaded object must be instantiated
     sv = prog.func('persistence.Savable.save')
     rec = [c for c in calls_in_func(sv, 'set_custom_meta')]
